@@ -7,6 +7,7 @@ type R = Result<String, BadArgs>;
 pub fn run(op: &str, rd: &mut Rd) -> Option<R> {
     Some(match op {
         // vec2 / point
+        "vec.hypot" => (|| -> R { let a = rd.vec()?; Ok(format!("{} {} {}", e(a.hypot()), e(a.hypot2()), e(a.atan2()))) })(),
         "vec.dot" => (|| -> R { let a = rd.vec()?; let b = rd.vec()?; Ok(e(a.dot(b))) })(),
         "vec.cross" => (|| -> R { let a = rd.vec()?; let b = rd.vec()?; Ok(e(a.cross(b))) })(),
         "vec.lerp" => (|| -> R { let a = rd.vec()?; let b = rd.vec()?; let t = rd.num()?; Ok(e_vec(a.lerp(b, t))) })(),
